@@ -63,13 +63,14 @@ def build_engines(want_plain=False):
             (main_src, aflags, "l2"),
             (os.path.join(HERE, "shim.cpp"), hflags, "")]
     eo, m1, m2, sh = build.compile_many(jobs)
-    l1 = build.link([eo, m1] + objs, os.path.join(build.BIN, "clisim"), ["-fsanitize=address,undefined"])
+    WRAP = ["-Wl,--wrap=getenv", "-Wl,--wrap=secure_getenv"]  # the process environment is part of the simulated world
+    l1 = build.link([eo, m1] + objs, os.path.join(build.BIN, "clisim"), ["-fsanitize=address,undefined"] + WRAP)
     # twin of L1: uninitialised automatic variables are zero instead of a garbage pattern
     zobjs = build.lib_objects("asanz")
     zflags = build.VARIANTS["asanz"] + build.INCLUDES
     (mz,) = build.compile_many([(main_src, zflags + ["-include", os.path.join(HERE, "prelude.h")], "l1z")])
     global TWIN
-    TWIN = build.link([eo, mz] + zobjs, os.path.join(build.BIN, "clisim_z"), ["-fsanitize=address,undefined"])
+    TWIN = build.link([eo, mz] + zobjs, os.path.join(build.BIN, "clisim_z"), ["-fsanitize=address,undefined"] + WRAP)
     l2 = build.link([sh, m2] + objs, os.path.join(build.BIN, "gm2calc_l2"), ["-fsanitize=address,undefined", "-ldl"])
     pl = None
     if want_plain:
@@ -119,7 +120,7 @@ class L2Runner:
                 meta[k] = v
         src = int(meta.get("src", "0"))
         path = os.path.join(self.fs, "input.in")
-        source = {0: "-", 1: path, 2: os.path.join(self.fs, "does-not-exist.in"), 3: self.fs, 4: "", 6: os.path.join(self.fs, meta.get("longname", "x"))}.get(src)
+        source = {0: "-", 1: path, 2: os.path.join(self.fs, "does-not-exist.in"), 3: self.fs, 4: "", 6: os.path.join(self.fs, meta.get("longname", "x")), 7: meta.get("tilde", "~")}.get(src)
         have_file = src == 1 or meta.get("materialise") == "1"
         if have_file:
             shutil.copyfile(os.path.join(md, "doc.bin"), path)
@@ -128,7 +129,20 @@ class L2Runner:
         pre, post = [subst(unesc(x)) for x in pre], [subst(unesc(x)) for x in post]
         argv = ["gm2calc.x"] + pre + (["--%s-input-file=%s" % (meta.get("type", "slha"), source)] if src != 5 else []) + post
         cs, cm = (meta.get("chunk", "0 0").split() + ["0", "0"])[:2]
-        env = dict(os.environ)
+        # the process environment of the real process mirrors simulated_env() of scenario.hpp
+        envmode = int(meta.get("env", "0") or 0)
+        names = ["HOME", "PATH", "LANG", "LC_ALL", "LC_NUMERIC", "USER", "LOGNAME", "TMPDIR", "PWD", "SHELL", "TERM", "COLUMNS", "LINES", "GM2CALC_VERBOSE", "NO_COLOR"]
+        if envmode == 1:
+            env = {}
+        elif envmode == 2:
+            env = {n: "" for n in names}
+        elif envmode == 3:
+            env = {n: "e" * 4096 for n in names}
+        elif envmode == 4:
+            odd = {"HOME": "~", "TMPDIR": b"/nonexistent/\xff", "COLUMNS": "-1", "LANG": "de_DE.UTF-8", "LC_ALL": "de_DE.UTF-8", "LC_NUMERIC": "de_DE.UTF-8"}
+            env = {n: odd.get(n, "\n") for n in names}
+        else:
+            env = {"HOME": "/home/user", "PATH": "/usr/bin:/bin", "LANG": "C", "USER": "user", "LOGNAME": "user", "TMPDIR": "/tmp", "PWD": "/", "SHELL": "/bin/sh", "TERM": "dumb"}
         env["CLISIM_SHIM"] = "%s %s %s %s %s %s" % (cs, cm, meta.get("readerr", "-1"), meta.get("eintr", "-1"), meta.get("sinkfail_out", "-1"), meta.get("sinkfail_err", "-1"))
         env["UBSAN_OPTIONS"] = ENV["UBSAN_OPTIONS"]
         exe = binary or self.l2
@@ -257,6 +271,7 @@ def main(a):
         parts["config"] = batch(ck, 0, 0, counts.get(ck, 0))
         parts["arglen"] = batch("ARGLEN", 0, 0, counts.get("ARGLEN", 0))
         parts["cmdline"] = batch("CMDLINE", 0, 0, counts.get("CMDLINE", 0))
+        parts["env"] = batch("ENV", 0, 0, counts.get("ENV", 0))
         parts["boundary"] = batch("BOUNDARY", 0, 0, counts.get("BOUNDARY", 0))
         sk = "SCALE" if thorough else "SCALEQ"
         parts["scale"] = batch(sk, 0, 0, counts.get(sk, 0))
@@ -325,7 +340,7 @@ def main(a):
                         twin_cands.append({"run": r, "kind": kind, "seed": seed})
         t_twin = time.time() - t1
 
-        kinds = {"corpus": "CORPUS", "prefix": pk, "token": tk, "random": "RUNS", "light": "LIGHT", "config": ck, "arglen": "ARGLEN", "cmdline": "CMDLINE", "boundary": "BOUNDARY", "scale": sk}
+        kinds = {"corpus": "CORPUS", "prefix": pk, "token": tk, "random": "RUNS", "light": "LIGHT", "config": ck, "arglen": "ARGLEN", "cmdline": "CMDLINE", "env": "ENV", "boundary": "BOUNDARY", "scale": sk}
         cands = []
         for name, part in parts.items():
             for c in part["candidates"]:
@@ -507,7 +522,7 @@ def main(a):
                                      "what": ("every byte offset" if thorough else "every line start of every file and every byte offset of input/example.*") +
                                              " of every shipped input file as truncation point, via stdin and via path", "complete": parts["prefix"]["executed"] == counts.get(pk, 0)},
                     "single_token_replacement": {"kind": tk, "runs": parts["token"]["executed"], "of": counts.get(tk, 0),
-                                                 "what": "every token of every data line of " + ("every shipped file" if thorough else "input/example.*") + " x 19 replacement kinds x force_output on/off",
+                                                 "what": "every token of every data line of " + ("every shipped file" if thorough else "input/example.*") + " x 60 replacement spellings (non-finite, overflowing, denormal, huge integers, malformed, finite with extreme exponents) incl. variants glued to the preceding token on block-definition lines x force_output on/off",
                                                  "complete": parts["token"]["executed"] == counts.get(tk, 0)},
                     "argument_lengths": {"kind": "ARGLEN", "runs": parts["arglen"]["executed"], "of": counts.get("ARGLEN", 0),
                                          "what": "every length 1..640 and ten larger ones (to 65536) of: an unopenable input file name (one component / nested), a long unknown option, a long second input option, a long bare word; x 3 input types x {SLHA-type, detailed} output",
@@ -515,6 +530,9 @@ def main(a):
                     "command_lines": {"kind": "CMDLINE", "runs": parts["cmdline"]["executed"], "of": counts.get("CMDLINE", 0),
                                       "what": "every command line of one, two or three atoms out of an alphabet of 36 (help/version options, the three input options with stdin / existing file / missing file / directory / empty name, misspelt, truncated, prefixed, doubled and decorated variants, empty and non-UTF-8 words)",
                                       "complete": parts["cmdline"]["executed"] == counts.get("CMDLINE", 0)},
+                    "process_environments": {"kind": "ENV", "runs": parts["env"]["executed"], "of": counts.get("ENV", 0),
+                                             "what": "every command line of one or two atoms, and `~`-spelt input names for each input type, under each of four non-ordinary process environments (every variable unset; every common variable empty; 4096 characters long; odd values); getenv() is answered by the simulator, the names asked for are listed as probe_getenv_*",
+                                             "complete": parts["env"]["executed"] == counts.get("ENV", 0)},
                     "boundary_documents": {"kind": "BOUNDARY", "runs": parts["boundary"]["executed"], "of": counts.get("BOUNDARY", 0),
                                            "what": "one CR / one NUL inserted at every offset of input/example.*; the examples padded to 64 KiB with one special byte (CR, LF, NUL, #, space, letter) at every offset 2^k-2..2^k+1, k=8..16; %d curated edge documents (DOS/Mac line endings, torn between CR and LF, no final newline, torn inside the first block header, lengths exactly at 2^k-1, 2^k, 2^k+1); each via stdin and via path" % counts.get("EDGE", 0),
                                            "complete": parts["boundary"]["executed"] == counts.get("BOUNDARY", 0)},
@@ -541,7 +559,7 @@ def main(a):
                 "determinism_gate": {"runs_compared": compared, "hash_mismatches": len(mism), "of_which_process_reuse_artefacts_confirmed_by_fresh_processes": reuse_artefacts},
                 "worker_deaths": sum(p["deaths"] for p in parts.values()),
                 "real_vs_stub": {"real": ["src/gm2calc.cpp main() and all of libgm2calc from the working tree (ASan+UBSan)", "libstdc++ string/stream formatting", "L2: the whole process incl. libstdc++ filebuf, exit(), LeakSanitizer"],
-                                 "simulated": ["argv", "stdin/stdout/stderr stream buffers (L1) / read(2), write(2) results (L2)", "file system entry behind the input option", "exit() (L1: unwinds to the simulator)", "clock: logical step counter"]},
+                                 "simulated": ["argv", "process environment (getenv)", "stdin/stdout/stderr stream buffers (L1) / read(2), write(2) results (L2)", "file system entry behind the input option", "exit() (L1: unwinds to the simulator)", "clock: logical step counter"]},
                 "known_findings_seen": known_hits,
                 "timing_s": {"build": round(t_build, 1), "enumerations": round(t_enum, 1), "random": round(t_rand, 1), "l2": round(t_l2, 1)},
             },
